@@ -1,7 +1,7 @@
 (* C09: witness of the recorded class and an acyclic sample project. *)
 From Coq Require Import String Ascii.
 From Coq Require Import List Arith Bool.
-Require Import TT.Model.Str TT.Model.C07TypeParse TT.Model.Harvest TT.Model.C07Reach TT.Spec.C07Spec TT.Spec.C07Known TT.Spec.C09Spec.
+Require Import TT.Model.Str TT.Model.C07TypeParse TT.Model.C07Harvest TT.Model.C07Reach TT.Spec.C07Spec TT.Spec.C07Known TT.Spec.C09Spec.
 Import ListNotations.
 Local Open Scope string_scope.
 
